@@ -1653,8 +1653,10 @@ def run(ck: core.Check):
         changed = [f"baseline unreadable: {type(e).__name__}"]
     ck.cov["covered_sources_changed"] = changed
     global ESCALATE
-    ESCALATE = bool(changed)
-    if changed:
+    import os as _os
+
+    ESCALATE = bool(changed) and not _os.environ.get("C08_NO_ESCALATE")  # (the mutation table is run without the escalation)
+    if ESCALATE:
         ck.notes.append(f"covered source changed since the baseline ({', '.join(changed)}): version-family counts escalated")
         n_vbody *= 3
     n_types = ck.pick(30, 300)
